@@ -2,7 +2,7 @@
 C10 (source tie) — the hand-written model of `CurrentObjects::verify_delta_applies`
 (`KM.Pubd.verifyDelta`, Pubd/Content.lean) equals the definition that the translator `pure_fns`
 regenerates from `/repo/src/server/pubd/rrdp.rs` on every run (`Generated/PureFnsC10.lean`,
-`KM.Gen.CurrentObjects.verify_delta_applies` with its three loops `.loop`, `.loop2`, `.loop3`).
+`KM.Gen.C10.CurrentObjects.verify_delta_applies` with its three loops `.loop`, `.loop2`, `.loop3`).
 
 `publish_iff`, `publish_atomic`, `isolation` (Props/C10.lean) are about `verifyDelta`: a request is
 accepted iff every published URI is inside the publisher's jail and new, every updated or
@@ -52,38 +52,38 @@ def toExceptG : Option ε → Except ε Unit
   | some e => .error e
 
 theorem loop3_gen (l : List E) :
-    KM.Gen.CurrentObjects.verify_delta_applies.loop3 ij pr mh eo ep en ps us ws l
+    KM.Gen.C10.CurrentObjects.verify_delta_applies.loop3 ij pr mh eo ep en ps us ws l
       = toExceptG (l.findSome? (chkU ij mh eo en)) := by
   induction l with
   | nil => rfl
   | cons e t ih =>
-    unfold KM.Gen.CurrentObjects.verify_delta_applies.loop3
+    unfold KM.Gen.C10.CurrentObjects.verify_delta_applies.loop3
     simp only [List.findSome?_cons, chkU]
     cases ij e <;> cases mh e <;> simp [toExceptG, ih]
 
 theorem loop2_gen (l : List E) :
-    KM.Gen.CurrentObjects.verify_delta_applies.loop2 ij pr mh eo ep en ps us ws l
+    KM.Gen.C10.CurrentObjects.verify_delta_applies.loop2 ij pr mh eo ep en ps us ws l
       = toExceptG ((l ++ ws).findSome? (chkU ij mh eo en)) := by
   induction l with
   | nil =>
-    unfold KM.Gen.CurrentObjects.verify_delta_applies.loop2
-      KM.Gen.CurrentObjects.verify_delta_applies.after2
+    unfold KM.Gen.C10.CurrentObjects.verify_delta_applies.loop2
+      KM.Gen.C10.CurrentObjects.verify_delta_applies.after2
     exact loop3_gen ij pr mh eo ep en ps us ws ws
   | cons e t ih =>
-    unfold KM.Gen.CurrentObjects.verify_delta_applies.loop2
+    unfold KM.Gen.C10.CurrentObjects.verify_delta_applies.loop2
     simp only [List.cons_append, List.findSome?_cons, chkU]
     cases ij e <;> cases mh e <;> simp [toExceptG, ih]
 
 theorem loop_gen (l : List E) :
-    KM.Gen.CurrentObjects.verify_delta_applies.loop ij pr mh eo ep en ps us ws l
+    KM.Gen.C10.CurrentObjects.verify_delta_applies.loop ij pr mh eo ep en ps us ws l
       = toExceptG ((l.findSome? (chkP ij pr eo ep)).or ((us ++ ws).findSome? (chkU ij mh eo en))) := by
   induction l with
   | nil =>
-    unfold KM.Gen.CurrentObjects.verify_delta_applies.loop
-      KM.Gen.CurrentObjects.verify_delta_applies.after
+    unfold KM.Gen.C10.CurrentObjects.verify_delta_applies.loop
+      KM.Gen.C10.CurrentObjects.verify_delta_applies.after
     simpa using loop2_gen ij pr mh eo ep en ps us ws us
   | cons e t ih =>
-    unfold KM.Gen.CurrentObjects.verify_delta_applies.loop
+    unfold KM.Gen.C10.CurrentObjects.verify_delta_applies.loop
     simp only [List.findSome?_cons, chkP]
     cases ij e <;> cases pr e <;> simp [toExceptG, ih]
 
@@ -135,12 +135,12 @@ theorem model_split (objs : Objs) (jail : Uri) (d : Delta) :
 /-- `CurrentObjects::verify_delta_applies` as translated from the source = the model the C10 theorems
 are about, for every current object set, jail and request. -/
 theorem gen_verify_delta_applies_eq_model (objs : Objs) (jail : Uri) (d : Delta) :
-    KM.Gen.CurrentObjects.verify_delta_applies (E := Elem) (ε := DeltaErr)
+    KM.Gen.C10.CurrentObjects.verify_delta_applies (E := Elem) (ε := DeltaErr)
       (fun e => inJail jail e.uri) (present objs) (matchesHash objs)
       (fun e => .outside e.uri) (fun e => .present e.uri) (fun e => .noMatch e.uri)
       (d.filter Elem.isPublish) (d.filter Elem.isUpdate) (d.filter Elem.isWithdraw)
       = toExcept (verifyDelta objs jail d) := by
-  unfold KM.Gen.CurrentObjects.verify_delta_applies
+  unfold KM.Gen.C10.CurrentObjects.verify_delta_applies
   rw [loop_gen, model_split]
   generalize List.findSome? _ (d.filter Elem.isPublish) = a
   generalize List.findSome? _ (d.filter Elem.isUpdate ++ d.filter Elem.isWithdraw) = b
@@ -154,7 +154,7 @@ def uX : Uri := ⟨rsyncLower, ⟨"h", 0⟩, ⟨"m", 0⟩, ["ca", "x.cer"], fals
 def uOut : Uri := ⟨rsyncLower, ⟨"h", 0⟩, ⟨"m", 0⟩, ["cb", "y.cer"], false⟩
 def objs0 : Objs := [(key uX, ⟨1, 10⟩)]
 def genOn (d : Delta) : Except DeltaErr Unit :=
-  KM.Gen.CurrentObjects.verify_delta_applies (E := Elem) (ε := DeltaErr)
+  KM.Gen.C10.CurrentObjects.verify_delta_applies (E := Elem) (ε := DeltaErr)
     (fun e => inJail jailCa e.uri) (present objs0) (matchesHash objs0)
     (fun e => .outside e.uri) (fun e => .present e.uri) (fun e => .noMatch e.uri)
     (d.filter Elem.isPublish) (d.filter Elem.isUpdate) (d.filter Elem.isWithdraw)
